@@ -101,9 +101,21 @@ func (fr *Frame) execInstr(in ssa.Instruction, st *State) {
 	switch x := in.(type) {
 	case *ssa.Alloc:
 		elem := x.Type().(*types.Pointer).Elem()
+		lo2 := st.wm
+		defer func() {
+			if fr.top && (isStruct(elem) || isArray(elem)) && fx.eng.isPrivateSite(x) {
+				fx.notePrivate(st, lo2, st.wm)
+			}
+		}()
 		r := fx.alloc(st)
 		switch {
 		case isStruct(elem):
+			if k, ok := fx.eng.localKey(x); ok {
+				ls := &LocalStruct{Key: k, Ty: elem}
+				fx.zeroLocalStruct(st, ls, 0)
+				fr.set(x, Val{LS: ls, Known: true})
+				return
+			}
 			fx.zeroStruct(st, r, elem, 0)
 		case isArray(elem):
 			at := elem.Underlying().(*types.Array)
@@ -162,6 +174,16 @@ func (fr *Frame) execInstr(in ssa.Instruction, st *State) {
 		}
 	case *ssa.FieldAddr:
 		pv := fr.val(x.X)
+		if pv.LS != nil {
+			f := pv.LS.Ty.Underlying().(*types.Struct).Field(x.Field)
+			k := pv.LS.Key + "." + f.Name()
+			if isStruct(f.Type()) {
+				fr.set(x, Val{LS: &LocalStruct{Key: k, Ty: f.Type()}, Known: true})
+			} else {
+				fr.set(x, Val{LV: fx.localLV(k, f.Type()), Known: true})
+			}
+			return
+		}
 		p := fx.materialize(pv, x.X.Type())
 		stT := x.X.Type().Underlying().(*types.Pointer).Elem()
 		f := stT.Underlying().(*types.Struct).Field(x.Field)
@@ -189,6 +211,12 @@ func (fr *Frame) execInstr(in ssa.Instruction, st *State) {
 	case *ssa.MakeInterface:
 		fr.makeInterface(x, st)
 	case *ssa.MakeMap:
+		lo0 := st.wm
+		defer func() {
+			if fr.top && fx.eng.isPrivateSite(x) {
+				fx.notePrivate(st, lo0, st.wm)
+			}
+		}()
 		r := fx.alloc(st)
 		mt := x.Type().Underlying().(*types.Map)
 		dk, _, ks, _ := mapKeys(mt)
@@ -200,6 +228,12 @@ func (fr *Frame) execInstr(in ssa.Instruction, st *State) {
 			fmt.Fprintf(os.Stderr, "MakeMap %s -> %s\n", x.Name(), r.S)
 		}
 	case *ssa.MakeSlice:
+		lo1 := st.wm
+		defer func() {
+			if fr.top && fx.eng.isPrivateSite(x) {
+				fx.notePrivate(st, lo1, st.wm)
+			}
+		}()
 		r := fx.alloc(st)
 		ln := fx.materialize(fr.val(x.Len), nil)
 		cp := fx.materialize(fr.val(x.Cap), nil)
@@ -359,11 +393,22 @@ func (fr *Frame) unop(x *ssa.UnOp, st *State) {
 	case token.MUL: // load
 		pv := fr.val(x.X)
 		elem := x.X.Type().Underlying().(*types.Pointer).Elem()
+		if pv.LS != nil {
+			r := fx.alloc(st)
+			fx.copyFromLocal(st, r, pv.LS, 0)
+			fr.set(x, tv(r))
+			return
+		}
 		if pv.LV == nil {
 			fx.oblige(st, "panic", fr.siteLabel("nil-deref", x.Pos(), x), Not(Eq(pv.T, Nil)), x.Pos())
 		}
 		if isStruct(elem) {
 			src := fx.materialize(pv, x.X.Type())
+			if structLoadIsReadOnly(x) {
+				// the copy is only read, immediately: it may share the original's storage
+				fr.set(x, tv(src))
+				return
+			}
 			r := fx.alloc(st)
 			fx.copyStruct(st, r, src, elem, 0)
 			fr.set(x, tv(r))
@@ -411,6 +456,10 @@ func (fr *Frame) store(x *ssa.Store, st *State) {
 	pv := fr.val(x.Addr)
 	elem := x.Addr.Type().Underlying().(*types.Pointer).Elem()
 	v := fr.val(x.Val)
+	if pv.LS != nil {
+		fx.copyToLocal(st, pv.LS, fx.materialize(v, elem), 0)
+		return
+	}
 	if pv.LV == nil {
 		fx.oblige(st, "panic", fr.siteLabel("nil-deref", x.Pos(), x), Not(Eq(pv.T, Nil)), x.Pos())
 	}
@@ -588,6 +637,8 @@ func (fr *Frame) lookup(x *ssa.Lookup, st *State) {
 	}
 	m := fx.materialize(fr.val(x.X), x.X.Type())
 	k := fx.materialize(fr.val(x.Index), mt.Key())
+	fr.eventAsserts("lookup:"+typeKey(x.X.Type()), st, x.Pos())
+	fr.ghostAnchors("lookup:"+typeKey(x.X.Type()), st)
 	_, _, ks, vs := mapKeys(mt)
 	in := Select(fx.mapDom(st, mt, m), k, SBool)
 	in = And(Not(Eq(m, Nil)), in)
@@ -609,8 +660,10 @@ func (fr *Frame) mapUpdate(x *ssa.MapUpdate, st *State) {
 	k := fx.materialize(fr.val(x.Key), mt.Key())
 	v := fx.materialize(fr.val(x.Value), mt.Elem())
 	fx.oblige(st, "panic", fr.siteLabel("nil-map-store", x.Pos(), x), Not(Eq(m, Nil)), x.Pos())
-	fx.frameWrite(st, m, "map", x.Pos(), fr)
+	fr.eventAsserts("mapupdate:"+typeKey(x.Map.Type()), st, x.Pos())
+	fr.ghostAnchors("mapupdate:"+typeKey(x.Map.Type()), st)
 	dk, vk, ks, vs := mapKeys(mt)
+	fx.frameWrite(st, m, dk, x.Pos(), fr)
 	domS := ArraySort(ks, SBool)
 	valS := ArraySort(ks, vs)
 	dom := fx.heapGet(st, dk, ArraySort(SInt, domS))
@@ -757,19 +810,37 @@ func (fr *Frame) typeAssert(x *ssa.TypeAssert, st *State) {
 }
 
 // frame / frozen bookkeeping hooks (pure functions: all writes must hit fresh objects)
-func (fx *FnExec) frameWrite(st *State, ref Term, what string, pos token.Pos, fr *Frame) {
-	if fx.contract != nil && fx.contract.Flags["pure"] && !fx.contract.Flags["trusted"] {
+// perWrite: does the contract demand that every write of the function itself is justified (pure: only fresh objects;
+// perwrite: fresh objects or a location listed under modifies)?
+func (fx *FnExec) perWrite() bool {
+	return fx.contract != nil && (fx.contract.Flags["pure"] || fx.contract.Flags["perwrite"]) && !fx.contract.Flags["trusted"]
+}
+
+// writeAllowed: the written object is fresh, or the location is listed in the contract's modifies clause.
+func (fx *FnExec) writeAllowed(ref Term, key string) Term {
+	alts := []Term{Gt(ref, fx.entry.wm)}
+	if fx.allowedWhole[key] {
+		return True
+	}
+	for _, a := range fx.allowed[key] {
+		alts = append(alts, Eq(ref, a))
+	}
+	return Or(alts...)
+}
+
+func (fx *FnExec) frameWrite(st *State, ref Term, key string, pos token.Pos, fr *Frame) {
+	if fx.perWrite() {
 		label := "fresh-write"
 		if fr != nil && fr.site != "" {
 			label += "@" + fr.site
 		}
-		fx.oblige(st, "frame", label+":"+fx.eng.snippetNode(pos, fx.fn, nil), Gt(ref, fx.entry.wm), pos)
+		fx.oblige(st, "frame", label+":"+fx.eng.snippetNode(pos, fx.fn, nil), fx.writeAllowed(ref, key), pos)
 	}
 }
 
 func (fx *FnExec) frameWriteLV(st *State, lv *LV, pos token.Pos, fr *Frame) {
 	if strings.HasPrefix(lv.Key, "Glob.") {
-		if fx.contract != nil && fx.contract.Flags["pure"] {
+		if fx.perWrite() && !fx.allowedWhole[lv.Key] {
 			fx.oblige(st, "frame", "global-write:"+lv.Key, False, pos)
 		}
 		return
@@ -778,3 +849,72 @@ func (fx *FnExec) frameWriteLV(st *State, lv *LV, pos token.Pos, fr *Frame) {
 }
 
 func (fx *FnExec) rememberFn(lv *LV, v Val) {}
+
+
+// structLoadIsReadOnly: the loaded struct value is used only by field reads located in the same block, with no
+// store, call or map update between the load and the last of those reads — so no copy is needed.
+func structLoadIsReadOnly(x *ssa.UnOp) bool {
+	refs := x.Referrers()
+	if refs == nil {
+		return false
+	}
+	uses := map[ssa.Instruction]bool{}
+	var pending []ssa.Value
+	pending = append(pending, x)
+	for len(pending) > 0 {
+		v := pending[len(pending)-1]
+		pending = pending[:len(pending)-1]
+		rs := v.Referrers()
+		if rs == nil {
+			return false
+		}
+		for _, r := range *rs {
+			switch f := r.(type) {
+			case *ssa.DebugRef:
+			case *ssa.Field:
+				if f.Block() != x.Block() {
+					return false
+				}
+				uses[f] = true
+				if isStruct(f.Type()) {
+					pending = append(pending, f) // nested struct field: its reads must be immediate too
+				}
+			case *ssa.Store:
+				// copied at once into a frame-local struct variable: the copy happens at the store
+				if f.Val != v || f.Block() != x.Block() || isLocalStructAddr == nil || !isLocalStructAddr(f.Addr) {
+					return false
+				}
+				uses[f] = true
+			default:
+				return false
+			}
+		}
+	}
+	// scan the block from the load to the last use
+	remaining := len(uses)
+	started := false
+	for _, in := range x.Block().Instrs {
+		if in == ssa.Instruction(x) {
+			started = true
+			continue
+		}
+		if !started {
+			continue
+		}
+		if remaining == 0 {
+			break
+		}
+		if uses[in] {
+			remaining--
+			continue
+		}
+		switch in.(type) {
+		case *ssa.Store, *ssa.MapUpdate, ssa.CallInstruction:
+			return false
+		}
+	}
+	return remaining == 0
+}
+
+// isLocalStructAddr is set by the engine: does this address denote a frame-local struct variable (or a nested field of one)?
+var isLocalStructAddr func(ssa.Value) bool
